@@ -15,6 +15,26 @@ struct Cell {
     long w[MAXW];
     inline static int W = 1;  ///< active words (per-run knob, set by thread 0 before spawning)
     inline static bool throw_on_copy = false;  ///< F_THROW may fire in copy operations
+    /// the wrapped object under test (if the workload has exactly one) and the
+    /// value its last completed write stored; every granted access must see it
+    inline static const Cell* tracked = nullptr;
+    inline static long model = 0;
+    inline static long writes_applied = 0;
+    void check_model(long v, const char* what) const
+    {
+        if (this != tracked) return;
+        gsim::Oracle o;
+        if (v != model)
+            gsim::fail("lost_update", "%s of the wrapped object saw %ld but the last completed "
+                       "write stored %ld", what, v, model);
+    }
+    void set_model(long v) const
+    {
+        if (this != tracked) return;
+        gsim::Oracle o;
+        model = v;
+        writes_applied++;
+    }
 
     Cell() { for (int i = 0; i < MAXW; i++) w[i] = 0; }
     explicit Cell(long v) { for (int i = 0; i < MAXW; i++) w[i] = v; }
@@ -49,6 +69,7 @@ struct Cell {
         if (torn)
             gsim::fail("torn", "read of payload %p saw words %ld %ld %ld %ld", (const void*)this,
                        w[0], w[1], w[2], w[3]);
+        check_model(v, "a read");
         return v;
     }
     /// windowed write of all words
@@ -60,6 +81,7 @@ struct Cell {
             w[i] = v;
         }
         for (int i = W; i < MAXW; i++) w[i] = v;
+        set_model(v);
         gsim::win_end(this, true);
     }
     /// read-modify-write inside one W window: returns the old value
@@ -73,12 +95,14 @@ struct Cell {
                 gsim::fail("torn", "rmw on payload %p saw words %ld %ld %ld %ld", (void*)this,
                            w[0], w[1], w[2], w[3]);
             }
+        check_model(v, "a read-modify-write");
         for (int h = 0; h < hold; h++) gsim::yield();
         for (int i = 0; i < W; i++) {
             gsim::yield();
             w[i] = v + d;
         }
         for (int i = W; i < MAXW; i++) w[i] = v + d;
+        set_model(v + d);
         gsim::win_end(this, true);
         return v;
     }
